@@ -20,6 +20,7 @@ import (
 	"github.com/beevik/etree"
 	dsig "github.com/russellhaering/goxmldsig"
 	"github.com/zitadel/saml/pkg/provider"
+	"github.com/zitadel/saml/pkg/provider/key"
 
 	"verif/harness/internal/coqgen"
 	"verif/harness/internal/idp"
@@ -387,6 +388,48 @@ func Run(dir, tier string, seed int64) error {
 			}
 		}
 	}
-	run.Res.Rule = "18 values (each character Canonical XML escapes: & < > CR in text, & < double-quote TAB LF CR in attribute values; apostrophe, leading / trailing / double space, multi-byte and supplementary-plane code points, entity look-alikes, CDATA terminator, a URL with & in its query) placed in every string that reaches a signed artefact (user attributes and custom attribute names / formats / values, NameID, audience = SP entity ID, recipient = consumer URL, request ID, RelayState, organisation and contact data) x {rsa-sha256, rsa-sha1} x artefacts {POST-binding response assertion (full user record; record with a login name only), attribute-query response assertion (all attributes / one requested / none matching), signed metadata, Redirect-binding query signature for consumer URLs with and without a query}: each enveloped signature is validated with goxmldsig and the published certificate; the signed element (without its Signature) goes to Coq as a tree together with the signer's digest input (whose hash must equal the emitted DigestValue) and goxmldsig's exclusive canonical form; each redirect URL is verified by the SAML Bindings 3.4.4.1 procedure on its raw query and compared with the generated BuildRedirectQuery; stored binding {POST, Redirect} x consumer URL {set, empty} are probed for a Success assertion without signature. distinct = (artefact, value class, verdict)."
+	// ---- a storage that hands out a certificate and a key that do not belong together (e.g. a half-finished rotation): whatever
+	// is emitted with a signature must still verify under the certificate the IdP publishes -- or nothing signed is emitted
+	{
+		conf := idp.DefaultConf()
+		conf.MetadataConfig = &provider.MetadataConfig{SignatureAlgorithm: idp.RSASHA256}
+		env, err := idp.NewEnv(idp.EnvConfig{Issuer: sso.IssuerURL, Conf: conf})
+		if err != nil {
+			return err
+		}
+		st := env.Storage
+		_, _, _, other := idp.Keys()
+		st.RespKey = &key.CertificateAndKey{Certificate: st.RespKey.Certificate, Key: other.Key}
+		st.MetaKey = &key.CertificateAndKey{Certificate: st.MetaKey.Certificate, Key: other.Key}
+		st.Register("app-1", sso.BaseSP(nil, true))
+		st.Apps["app-1"] = sso.SPEntity
+		u := &idp.User{Email: "a@example.com", Username: "alice", UserID: "u1"}
+		st.Users["u1"] = u
+		st.Logins["alice"] = u
+		respCert, _ := x509.ParseCertificate(st.RespKey.Certificate)
+		metaCert, _ := x509.ParseCertificate(st.MetaKey.Certificate)
+		d := func() map[string]interface{} {
+			return map[string]interface{}{"storage": "certificate and key of different pairs"}
+		}
+		for _, binding := range []string{idp.PostBinding, idp.RedirBinding} {
+			st.Requests["m1"] = &idp.AuthReq{ID: "m1", AppID: "app-1", RelayState: "rs", ACS: "https://sp.example/acs", Binding: binding, AuthReqID: "_r", UserID: "u1", IsDone: true}
+			rep := env.Do(idp.ReqSpec{Method: http.MethodGet, Path: "/login", Query: []idp.Param{idp.Q("id", "m1")}}.HTTP())
+			run.Res.Evaluations++
+			run.Count("mismatched-pair=" + rep.Kind)
+			if !strings.HasSuffix(rep.Status, ":Success") {
+				continue
+			}
+			if rep.Kind == "saml-redirect" {
+				fail("signed-with-a-key-not-matching-the-published-certificate", "a Success response was sent over the Redirect binding although the signing key does not belong to the published certificate", d())
+				id++
+			} else if rep.Msg != nil {
+				checkEnveloped("post-response-mismatched-pair", rep.Msg, "Assertion", respCert, d())
+			}
+		}
+		if rep := env.Do(idp.ReqSpec{Method: http.MethodGet, Path: "/metadata"}.HTTP()); rep.Code == 200 && rep.Doc != nil {
+			checkEnveloped("metadata-mismatched-pair", rep.Body, "EntityDescriptor", metaCert, d())
+		}
+	}
+	run.Res.Rule = "18 values (each character Canonical XML escapes: & < > CR in text, & < double-quote TAB LF CR in attribute values; apostrophe, leading / trailing / double space, multi-byte and supplementary-plane code points, entity look-alikes, CDATA terminator, a URL with & in its query) placed in every string that reaches a signed artefact (user attributes and custom attribute names / formats / values, NameID, audience = SP entity ID, recipient = consumer URL, request ID, RelayState, organisation and contact data) x {rsa-sha256, rsa-sha1} x artefacts {POST-binding response assertion (full user record; record with a login name only), attribute-query response assertion (all attributes / one requested / none matching), signed metadata, Redirect-binding query signature for consumer URLs with and without a query}: each enveloped signature is validated with goxmldsig and the published certificate; the signed element (without its Signature) goes to Coq as a tree together with the signer's digest input (whose hash must equal the emitted DigestValue) and goxmldsig's exclusive canonical form; each redirect URL is verified by the SAML Bindings 3.4.4.1 procedure on its raw query and compared with the generated BuildRedirectQuery; stored binding {POST, Redirect} x consumer URL {set, empty} are probed for a Success assertion without signature; a storage handing out a certificate and a key of different pairs must not lead to an artefact whose signature fails under the published certificate. distinct = (artefact, value class, verdict)."
 	return run.Finish()
 }
